@@ -519,3 +519,25 @@ pub fn error_class<E: std::fmt::Debug>(e: &E) -> String {
     let d = format!("{:?}", e);
     d.chars().take_while(|c| c.is_alphanumeric() || *c == '_').collect()
 }
+
+
+/// "the project was edited": when the row has `pre_copy_from`, the project directory `dir` is emptied and the content of that
+/// other directory copied into it before the load - the SAME path is then loaded again, in this process, with other content
+pub fn apply_pre_copy(c: &serde_json::Value) {
+    fn copy_dir(from: &std::path::Path, to: &std::path::Path) {
+        std::fs::create_dir_all(to).expect("create dir");
+        for e in std::fs::read_dir(from).expect("read dir") {
+            let e = e.expect("entry");
+            let (src, dst) = (e.path(), to.join(e.file_name()));
+            if src.is_dir() {
+                copy_dir(&src, &dst);
+            } else {
+                std::fs::copy(&src, &dst).expect("copy");
+            }
+        }
+    }
+    if let (Some(from), Some(dir)) = (c["pre_copy_from"].as_str(), c["dir"].as_str()) {
+        let _ = std::fs::remove_dir_all(dir);
+        copy_dir(std::path::Path::new(from), std::path::Path::new(dir));
+    }
+}
